@@ -395,7 +395,9 @@ func init() {
 
 // ---------- generators ----------
 
-var dirNames = []string{"a", "b", "pkg", "views", "vendor", "node_modules", ".git", ".hidden", "_skip", "_", "vendor2", "x_", "a.b", "Vendor", "node_modules_x", "templ"}
+var dirNames = []string{"a", "b", "pkg", "views", "vendor", "node_modules", ".git", ".hidden", "_skip", "_", "vendor2", "x_", "a.b", "Vendor", "node_modules_x", "templ",
+	// names that contain, without ending in, the suffixes the generator maps between
+	"site_templ.go.old", "x.templ.d", "v_templ.go_bak", "site_templ.go.old"}
 
 func validTempl(pkg string, n int, variant int) string {
 	switch variant % 5 {
@@ -454,7 +456,7 @@ var genCase = rapid.Custom(func(t *rapid.T) Case {
 	nFiles := rapid.IntRange(1, 24).Draw(t, "nfiles")
 	for i := 0; i < nFiles; i++ {
 		dir := dirs[rapid.IntRange(0, len(dirs)-1).Draw(t, "fdir")]
-		stem := rapid.SampledFrom([]string{"index", "page", "comp", "x", "layout_v2", "é"}).Draw(t, "stem") + fmt.Sprint(i)
+		stem := rapid.SampledFrom([]string{"index", "page", "comp", "x", "layout_v2", "é", "a_templ.go_x", "b.templ.c"}).Draw(t, "stem") + fmt.Sprint(i)
 		p := func(name string) string {
 			if dir == "" {
 				return name
